@@ -6,9 +6,11 @@ import (
 	"testing"
 	"time"
 
+	gpb "github.com/openconfig/gnmi/proto/gnmi"
 	"google.golang.org/grpc/codes"
 	"pgregory.net/rapid"
 
+	"verif/harness/fakes"
 	"verif/harness/model"
 	"verif/harness/vstat"
 )
@@ -301,6 +303,86 @@ func checkGet(w *World, x *vstat.Ctx, ref *Ref, g GetSpec, when string) error {
 	return nil
 }
 
+// checkGetMulti sends the given queries as one GetRequest with several paths (per-path targets, possibly different
+// ones, no prefix) and compares the i-th notification with the reference selection of the i-th path. All paths of a
+// request share its encoding: the first query's.
+func checkGetMulti(w *World, x *vstat.Ctx, ref *Ref, gets []GetSpec, when string) error {
+	var qs []GetSpec
+	for _, g := range gets {
+		if w.Config(g.Target) == nil && len(ref.Stored[g.Target]) == 0 {
+			continue // see checkGet
+		}
+		qs = append(qs, g)
+	}
+	if len(qs) < 2 {
+		return nil
+	}
+	x.Class("get:several-paths-in-one-request")
+	enc := gpb.Encoding_PROTO
+	if qs[0].JSON {
+		enc = gpb.Encoding_JSON
+	}
+	req := &gpb.GetRequest{Encoding: enc}
+	var names []string
+	sameTarget := true
+	for _, g := range qs {
+		p := g.Path.Gnmi()
+		p.Target = g.Target
+		req.Path = append(req.Path, p)
+		names = append(names, g.Target+":"+g.Path.String())
+		sameTarget = sameTarget && g.Target == qs[0].Target
+	}
+	if sameTarget {
+		x.Class("get:several-paths-of-one-target")
+	}
+	what := fmt.Sprintf("Get of %d paths in one request %v", len(qs), names)
+	resp, err, pan, st := w.Get(req, nil)
+	if pan != nil {
+		return vstat.Violf("%s: %s panicked: %v\n%s", when, what, pan, st)
+	}
+	if err != nil {
+		return vstat.Violf("%s: %s failed: %v", when, what, err)
+	}
+	if len(resp.Notification) != len(qs) {
+		return vstat.Violf("%s: %s was answered with %d notifications", when, what, len(resp.Notification))
+	}
+	for i, g := range qs {
+		want := model.Config{}
+		for _, l := range ref.Stored[g.Target].Select(g.Path) {
+			want[l.Path.String()] = l
+		}
+		got := map[string]string{}
+		for _, u := range resp.Notification[i].Update {
+			if u.Val == nil {
+				continue
+			}
+			if enc == gpb.Encoding_JSON {
+				flat, err := model.FlattenJSON(u.Val.GetJsonVal(), w.Schema)
+				if err != nil {
+					return vstat.Violf("%s: %s: document of path %d (%s) does not parse: %v", when, what, i+1, names[i], err)
+				}
+				for k, v := range flat {
+					got[k] = v
+				}
+				continue
+			}
+			k := fakes.ElemsKey(u.Path.Elem)
+			if _, dup := got[k]; dup {
+				return vstat.Violf("%s: %s: the answer to path %d (%s) reports %s twice", when, what, i+1, names[i], k)
+			}
+			got[k] = model.FromGnmiValue(u.Val).Key()
+		}
+		exp := want.Flat()
+		if enc == gpb.Encoding_JSON {
+			exp = model.WithImpliedKeys(want, w.Schema)
+		}
+		if d := model.DiffFlat(got, exp); d != "" {
+			return vstat.Violf("%s: %s: the answer to path %d (%s) differs from the gNMI-sequential configuration: %s", when, what, i+1, names[i], d)
+		}
+	}
+	return nil
+}
+
 func trunc(s string, n int) string {
 	if len(s) > n {
 		return s[:n] + "..."
@@ -399,6 +481,10 @@ func runC03(c C03Case, x *vstat.Ctx) error {
 			if err := checkGet(w, x, ref, g, fmt.Sprintf("after set %d", i+1)); err != nil {
 				return err
 			}
+		}
+		// the same queries once more as ONE GetRequest naming several paths (one notification per path, in order)
+		if err := checkGetMulti(w, x, ref, st.Gets, fmt.Sprintf("after set %d", i+1)); err != nil {
+			return err
 		}
 		// always read the whole configuration of every target back as well
 		for _, t := range c.Targets {
